@@ -166,6 +166,9 @@ fn get_best_move_score(
     killer_moves: &mut [Option<Move>],
     history: &mut [u16; 64 * 12],
 ) -> Option<Score> {
+    #[cfg(daniel729_chess_verif)]
+    crate::verif::poll(continue_running, table, real_depth);
+
     if !continue_running.load(Relaxed) {
         // Halt the search early
         return None;
